@@ -16,3 +16,7 @@ for o in obs:
             print('  GOAL', o.goal)
             for h in o.hyps: print('  HYP', str(h)[:400])
 print(len(obs), 'obligations;', sum(o.status == 'unsat' for o in sol), 'discharged by solver; total time', round(sum(o.time for o in sol), 2))
+import collections
+print("by backend", collections.Counter(o.backend for o in sol))
+for o in sorted(sol, key=lambda o: -o.time)[:12]:
+    print(round(o.time, 2), o.backend, o.status, o.id)
